@@ -200,7 +200,19 @@ inline bool stripeClaim(
   using Wide = typename StripeCursor<IntegerT>::WideT;
   auto& s = state.stripes[stripeIdx];
   const IntegerT chunkSize = state.chunkSize;
-  Wide prev = s.next.fetch_add(static_cast<Wide>(chunkSize), std::memory_order_relaxed);
+  // Advance the cursor with a CAS that never moves it past `end`.  A plain fetch_add keeps adding
+  // chunkSize on every failed claim; for a 64-bit IntegerT whose range ends within a few chunks of
+  // the type's maximum the cursor then wraps around, compares below `end` again, and claims (without
+  // end) chunks that lie outside the range.
+  const Wide chunkWide = static_cast<Wide>(chunkSize);
+  Wide prev = s.next.load(std::memory_order_relaxed);
+  while (prev < s.end) {
+    const Wide claimedEnd = (s.end - prev <= chunkWide) ? s.end : prev + chunkWide;
+    if (s.next.compare_exchange_weak(
+            prev, claimedEnd, std::memory_order_relaxed, std::memory_order_relaxed)) {
+      break;
+    }
+  }
   DISPENSO_VERIF_POINT(::dispenso::verif::kStripeAfterClaim);
   if (prev >= s.end) {
     // Stripe exhausted before this claim. Try to be the one to retire it.
@@ -221,8 +233,7 @@ inline bool stripeClaim(
     return false;
   }
   outBegin = static_cast<IntegerT>(prev);
-  Wide endWide = prev + static_cast<Wide>(chunkSize);
-  outEnd = static_cast<IntegerT>(endWide > s.end ? s.end : endWide);
+  outEnd = static_cast<IntegerT>((s.end - prev <= chunkWide) ? s.end : prev + chunkWide);
   return true;
 }
 
